@@ -143,3 +143,13 @@ func init() {
 		Trusted: []string{"T1 go toolchain, solvers", "T2 govc"},
 	})
 }
+
+func init() {
+	register(&PropDef{
+		ID: "C18", Patterns: []string{"./extract"},
+		Extra:   func(r *Run) { r.extractShape() },
+		Covered: []string{"fixConst: exact textual value and token per constant kind, helper imports recorded", "classification switch of genContent: constants and functions by value, variables by address, types as types, generic objects skipped (shape obligations)"},
+		Uncov:   []string{"method-string synthesis (params/args/results), template rendering and format.Source", "that the output compiles for every package", "float constants are printed from a big.Float (see C14 finding)"},
+		Trusted: []string{"T1 go toolchain, solvers", "T2 govc", "fmt.Sprintf is a pure function of its arguments; go/constant ExactString/String are distinct pure functions"},
+	})
+}
